@@ -22,7 +22,7 @@ func init() { core.Register(area{}) }
 func (area) Name() string { return "tagfilter" }
 
 // number of deterministic witness cases at the start of every run
-const nWitness = 9
+const nWitness = 10
 
 func (area) Run(c *core.Ctx) error {
 	for i := 0; i < c.N; i++ {
@@ -50,8 +50,10 @@ func (area) Run(c *core.Ctx) error {
 			witnessParked(c)
 		case i == 8:
 			bigDictCase(c, 33000, true)
-		case c.Tier == "thorough" && i >= 11 && i <= 15:
-			bigDictCase(c, []int{32767, 32768, 32769, 40000, 70000}[i-11], i != 15)
+		case i == 9:
+			witnessParkedMore(c)
+		case c.Tier == "thorough" && i >= 12 && i <= 16:
+			bigDictCase(c, []int{32767, 32768, 32769, 40000, 70000}[i-12], i != 16)
 		case i%7 == 0:
 			readerCase(c, r)
 		case c.Tier == "thorough" && i == nWitness+1:
@@ -242,6 +244,7 @@ type dbt struct {
 	placed bool
 	parkedAt  string // yield point at which the query under the oracle was parked ("" = not parked)
 	parkedOps string
+	parkedKey string
 	silent bool // implementation + oracle only: no protocol lines (cases too large for the list model)
 	// the tag-value dictionary's table state machine (entry = metric, key, value), kept to tell which
 	// values are in flushed tries: PrepareFlush swaps when no or an empty immutable table exists; Flush
@@ -620,7 +623,7 @@ func (d *dbt) oracle(name string, cond stmt.Expr, groupBy []string, res *queryRe
 			key = k
 		}
 		if d.parkedAt != "" && key != "panic" {
-			key = "parked-reader-misses-flushed-batch"
+			key = d.parkedKey
 			desc = "query parked at " + d.parkedAt + " while " + d.parkedOps + " ran: " + desc
 		}
 		if os.Getenv("LVH_C10_DEBUG") != "" {
@@ -1140,10 +1143,33 @@ func dbCase(c *core.Ctx, r *rand.Rand) {
 func parkedRandom(d *dbt, r *rand.Rand, metrics, keys []string, defects bool) {
 	g := &cgen{r: r, keys: keys, defects: defects}
 	name := metrics[r.Intn(len(metrics))]
-	point := []string{"dictfind", "dictscan", "inverted", "forward"}[r.Intn(4)]
+	point := []string{"dictfind", "dictscan", "inverted", "forward", "grouping", "collect", "values", "suggest", "allseries"}[r.Intn(9)]
 	var cond stmt.Expr
 	k := keys[r.Intn(len(keys))]
 	switch point {
+	case "values", "suggest", "allseries":
+		pl := []string{"prepare-meta", "flush-meta"}
+		if point == "allseries" {
+			pl = []string{"prepare-index", "flush-index"}
+		}
+		d.parkedDirect(point, name, k, pl)
+		return
+	case "grouping", "collect":
+		// a positive single-atom condition (no forward read in the filter) with a group by
+		a := g.atom()
+		gb := []string{k}
+		if point == "grouping" && r.Intn(2) == 0 {
+			gb = append(gb, keys[r.Intn(len(keys))])
+		}
+		pl := []string{"prepare-index", "flush-index"}
+		if point == "collect" {
+			pl = []string{"prepare-meta", "flush-meta"}
+		}
+		if gb[0] == gb[len(gb)-1] && len(gb) > 1 {
+			gb = gb[:1]
+		}
+		d.queryParked(point, name, a, pl, gb...)
+		return
 	case "dictfind":
 		cond = &stmt.EqualsExpr{Key: k, Value: g.value()}
 	case "dictscan":
